@@ -8,11 +8,11 @@ HOOKS = {
     'add_only': True,
 }
 ENGINES = [
-    {'name': 'rqharness', 'path': 'harness/', 'serves_properties': ['C02', 'C03', 'C04', 'C20'],
+    {'name': 'rqharness', 'path': 'harness/', 'serves_properties': ['C02', 'C03', 'C04', 'C07', 'C20'],
      'kind_free_text': 'Rust binary calling the real libpatch / rapidquilt code in-process on generated cases; prints one protocol line per case'},
-    {'name': 'rqmodel', 'path': 'lean/Main.lean', 'serves_properties': ['C02', 'C03', 'C04', 'C20'],
+    {'name': 'rqmodel', 'path': 'lean/Main.lean', 'serves_properties': ['C02', 'C03', 'C04', 'C07', 'C20'],
      'kind_free_text': 'compiled Lean driver: runs the executable model and the specifications on the same protocol lines'},
-    {'name': 'RQ (Lean library)', 'path': 'lean/RQ/', 'serves_properties': ['C02', 'C03', 'C04', 'C20'],
+    {'name': 'RQ (Lean library)', 'path': 'lean/RQ/', 'serves_properties': ['C02', 'C03', 'C04', 'C07', 'C20'],
      'kind_free_text': 'Lean 4 model (RQ/Model), specifications (RQ/Spec), lemmas (RQ/Lemmas), property theorems (RQ/Props/Cnn.lean)'},
 ]
 NOTES = ('Technique: machine-checked proof in Lean 4 of theorems about a hand-written executable model, tied to /repo by a '
@@ -58,5 +58,15 @@ META = {
         'text': 'Theorems C04_file and C04_stack: rollback after any application (complete or partial, both directions, any fuzz, all kinds, '
                 'mode changes) returns exactly the previous file and never aborts; stacks undone LIFO. Checked on the real apply/rollback of stacks of 1-4 patches.',
         'note': APPLY_NOTE + ' Rename-level undo is modelled at driver level.',
+    },
+    'C07': {
+        'engine': 'rqharness dist + rqmodel',
+        'design_ref': 'DESIGN.md section 5 C07',
+        'technique': 'Lean 4 proof (union-find invariant, equivalence closure) + exhaustive-small and random differential correspondence',
+        'text': 'Theorems C07 / C07_total / C07_disjoint for all pair sequences and thread counts: related names (transitively, any order, any '
+                'multiplicity) share a worker; entries on different workers share no file name. The real FilenameDistributor is run on every '
+                'sequence of <= 3 pairs over 4 names (and long random ones) and must agree with the model and satisfy pairsOK.',
+        'note': 'Trusted: Lean kernel; RQ/Model/Dist.lean is FilenameDistributor (HashMap as insertion-ordered list; compared on every run); '
+                'that apply_patches feeds exactly (old,new) / single names and dispatches by old-or-new name is part of the parallel driver model (C06).',
     },
 }
